@@ -762,6 +762,54 @@ func deliveryWindowGen(r *vh.Rng) []string {
 	return ops
 }
 
+// deliveryLateGen: the contract is bought while too little hashrate is connected; one or two cycles later enough of it joins,
+// in miners that are taken for part of their time (a rate below the whole-miner threshold, or miners much larger than
+// the rate), and stays for a good number of cycles: what the first cycles fell short has to be made up.
+func deliveryLateGen(r *vh.Rng) []string {
+	// the carried shortfall stays below the whole-miner threshold (1000 GH/s) in most of these: it is made up by partial miners
+	rate := vh.Pick(r, []int{300, 400, 500, 600, 600, 900, 1800})
+	cycle := vh.Pick(r, []int{60, 120})
+	small := vh.Pick(r, []int{0, rate / 2, rate / 2, rate * 3 / 4})
+	var hrs []string
+	if small == 0 {
+		hrs = []string{"120"}
+		small = 120
+	} else {
+		hrs = []string{fmt.Sprint(small)}
+	}
+	starve := cycle/2 + r.Intn(2*cycle)
+	if r.Bool(45) {
+		// more than one cycle's worth is owed and the request (rate + carried shortfall) still stays below 1000 GH/s
+		rate = vh.Pick(r, []int{150, 200, 300})
+		cycle = vh.Pick(r, []int{120, 120, 300})
+		hrs, small = []string{"120"}, 120
+		starve = (2+r.Intn(3))*cycle - 20 + r.Intn(40)
+		if (starve/cycle+2)*rate > 1000 {
+			starve = 2*cycle - 20 + r.Intn(40)
+		}
+	}
+	cycles := 12 + r.Intn(5)
+	ops := []string{fmt.Sprintf("world hrs=%s cycle=%d acct=1", strings.Join(hrs, ","), cycle),
+		fmt.Sprintf("chain c1 state=0 len=%d hr=%d", cycle*cycles, rate), "startnode",
+		fmt.Sprintf("purchased c1 len=%d hr=%d payload=v:poolx", cycle*cycles+30, rate)}
+	for el := 0; el < starve; {
+		step := vh.Pick(r, []int{cycle / 2, 30, 13})
+		ops = append(ops, fmt.Sprintf("advance %d", step))
+		el += step
+	}
+	next := 1
+	for i, n := 0, 1+r.Intn(3); i < n; i++ {
+		ops = append(ops, fmt.Sprintf("minerup m%d hr=%d", next, vh.Pick(r, []int{2 * rate, 3 * rate, 5 * rate, 6000})))
+		next++
+	}
+	for el := starve; el < cycle*cycles+cycle; {
+		step := vh.Pick(r, []int{cycle / 2, cycle / 2, cycle - 7, 13, 30})
+		ops = append(ops, fmt.Sprintf("advance %d", step))
+		el += step
+	}
+	return ops
+}
+
 func TestVerifDelivery(t *testing.T) {
 	tr := vh.OpenTranscript("delivery.impl.txt")
 	defer tr.Close()
@@ -788,6 +836,21 @@ func TestVerifDelivery(t *testing.T) {
 		tr.Case(n+1+c, "delivery")
 		run(deliveryWindowGen(root.Fork()))
 	}
+	for c := 0; c < n/4+2; c++ {
+		tr.Case(2*n+10+c, "delivery")
+		run(deliveryLateGen(root.Fork()))
+	}
+	// corpus: the history of the second known finding (whole miners overstay on a contract below the whole-miner threshold)
+	tr.Case(3*n+20, "delivery")
+	ops2 := []string{"world hrs=200 cycle=120 acct=1", "chain c1 state=0 len=1440 hr=400", "startnode", "purchased c1 len=1470 hr=400 payload=v:poolx"}
+	for i := 0; i < 12; i++ {
+		ops2 = append(ops2, "advance 60")
+	}
+	ops2 = append(ops2, "advance 20", "minerup m1 hr=750", "minerup m2 hr=750")
+	for i := 0; i < 13; i++ {
+		ops2 = append(ops2, "advance 60")
+	}
+	run(ops2)
 	// corpus: the fleet of the known finding runs on every seed (no miner large enough for a minimum job in one
 	// cycle, rate below the full-miner threshold)
 	tr.Case(n, "delivery")
